@@ -9,6 +9,7 @@ import (
 	cmttypes "github.com/cometbft/cometbft/types"
 
 	evertypes "github.com/EscanBE/evermint/v12/types"
+	"github.com/EscanBE/evermint/v12/verifhook"
 )
 
 const (
@@ -77,6 +78,7 @@ func (eis *EVMIndexerService) OnStart() error {
 			select {
 			case msg := <-blockHeadersChan:
 				eventDataHeader := msg.Data.(cmttypes.EventDataNewBlockHeader)
+				verifhook.At("indexerService.headerReceived")
 				if eventDataHeader.Header.Height > latestBlock {
 					latestBlock = eventDataHeader.Header.Height
 					// notify
@@ -176,6 +178,7 @@ func (eis *EVMIndexerService) OnStart() error {
 				eis.Logger.Error("failed to fetch block result", "height", i, "err", err)
 				break
 			}
+			verifhook.At("indexerService.beforeIndexBlock")
 			if err := eis.txIdxr.IndexBlock(block.Block, blockResult.TxsResults); err != nil {
 				eis.Logger.Error("failed to index block", "height", i, "err", err)
 			} else if !isIndexerMarkedReady {
